@@ -7,7 +7,7 @@ from .. import gen, monitor, oracles
 from ..core import Workload
 from ..env import ptn
 
-KINDS = ('complex', 'real', 'deficient', 'zero')
+KINDS = ('complex', 'real', 'deficient', 'zero', 'zerocols', 'binary', 'dupcols')
 
 
 def _shapes(maxn):
@@ -55,10 +55,12 @@ def make_exhaustive(maxn):
                 A = gen.block_matrix(rng, q0, q1, 'real', rank=1)
             elif kind == 'zero':
                 A = gen.block_matrix(rng, q0, q1, 'real', rank=0)
+            elif kind in ('zerocols', 'binary', 'dupcols'):
+                A = gen.structured_block_matrix(rng, q0, q1, kind)
             else:
                 A = gen.block_matrix(rng, q0, q1, kind)
             sig = (f'{m}x{n}', kind, _sortclass(q0, q1), 'disjoint' if shared == 0 else f'shared{min(shared, 2)}')
-            _call(ctx, A, q0, q1, sig, nontrivial=(kind != 'zero' and shared > 0))
+            _call(ctx, A, q0, q1, sig, nontrivial=(kind != 'zero' and shared > 0 and bool(np.any(A))))
     return fn
 
 
@@ -87,8 +89,10 @@ def random_case(ctx, idx, rng):
         q0 = rng.integers(0, 3, size=m); q1 = rng.integers(5, 8, size=n)
     else:
         q0 = gen.qvec(rng, m, lay, r); q1 = gen.qvec(rng, n, lay, r)
-    kind = str(rng.choice(['complex', 'real', 'deficient', 'zero'], p=[.4, .3, .25, .05]))
-    if kind == 'deficient':
+    kind = str(rng.choice(['complex', 'real', 'deficient', 'zero', 'zerocols', 'binary', 'dupcols'], p=[.25, .2, .15, .04, .12, .12, .12]))
+    if kind in ('zerocols', 'binary', 'dupcols'):
+        A = gen.structured_block_matrix(rng, q0, q1, kind)
+    elif kind == 'deficient':
         A = gen.block_matrix(rng, q0, q1, 'complex', rank=int(rng.integers(1, 3)))
     elif kind == 'zero':
         A = gen.block_matrix(rng, q0, q1, 'real', rank=0)
@@ -139,18 +143,18 @@ def insitu_case(ctx, idx, rng):
 SPEC = {
     'id': 'C11',
     'rule': ('exhaustive: every charge vector in {0,1,2}^(m+n) for all shapes m,n<=3 (quick) / <=4 (thorough), each with '
-             'complex full-rank, real, rank-one-per-block and zero blocks; random: shapes up to 40x40 incl. 1xn, mx1, layouts '
+             'complex full-rank, real, rank-one-per-block, zero, exactly-zero rows/columns, 0/1-valued and exactly duplicated rows/columns; random: shapes up to 40x40 incl. 1xn, mx1, layouts '
              'zero/sorted/unsorted/one-side-sorted/disjoint/|q|~1e9/encoded pairs, scales 1e-30..1e30; in situ: qr as driven by '
              'orthonormalize/compress/TDVP/DMRG. A case is non-trivial when the matrix is non-zero and the charge vectors share '
              'at least one value; distinct = distinct (shape class, layout, entry kind, sortedness, overlap) signatures.'),
     'deciding': ['qr.product', 'qr.isometry', 'qr.sector-Q', 'qr.sector-R', 'qr.disjoint', 'qr.operands-unchanged'],
     'workloads': [
         Workload('exhaustive', make_exhaustive(3), quick=_count(3), thorough=0,
-                 exhaustive={'space': 'all q in {0,1,2}^(m+n), m,n<=3, x4 entry kinds'}),
+                 exhaustive={'space': 'all q in {0,1,2}^(m+n), m,n<=3, x7 entry kinds'}),
         Workload('exhaustive4', make_exhaustive(4), quick=0, thorough=_count(4),
-                 exhaustive={'space': 'all q in {0,1,2}^(m+n), m,n<=4, x4 entry kinds'}),
-        Workload('random', random_case, quick=3000, thorough=120000),
-        Workload('insitu', insitu_case, quick=150, thorough=3000),
+                 exhaustive={'space': 'all q in {0,1,2}^(m+n), m,n<=4, x7 entry kinds'}),
+        Workload('random', random_case, quick=3000, thorough=960000),
+        Workload('insitu', insitu_case, quick=150, thorough=15000),
     ],
     'shards': {'quick': 1, 'thorough': 16},
     'assumptions': ['numpy.linalg.norm / matmul are the trusted base of the oracle',
